@@ -122,7 +122,7 @@ def strat_mask(tier):
         'mshape': st.one_of(st.tuples(ax, ax).map(list), ax.map(lambda k: [k, k])),
         'Q': st.one_of(st.sampled_from([1.0, 2.0, 0.5, 1.37]), U.nice_float(0.4, 4).map(lambda v: round(v, 3))),
         'shift': _shift(), 'phys': _phys(), 'method': st.sampled_from(['mdft', 'czt']),
-        'mkind': st.sampled_from(['real', 'complex', 'binary']), 'via': st.sampled_from(['function', 'wavefront', 'wavefront-mask']),
+        'mkind': st.sampled_from(['real', 'complex', 'binary', 'int-pm', 'uint8', 'bool']), 'via': st.sampled_from(['function', 'wavefront', 'wavefront-mask']),
         'kind': U.field_kinds, 'seed': U.seeds})
 
 
@@ -131,6 +131,12 @@ def _mask(case, salt=0):
     ms = tuple(case['mshape'])
     if case['mkind'] == 'binary':
         return (r.uniform(0, 1, ms) > 0.4).astype(float)
+    if case['mkind'] == 'bool':
+        return r.uniform(0, 1, ms) > 0.4
+    if case['mkind'] == 'int-pm':
+        return r.integers(-2, 3, ms)                 # integer-typed phase / amplitude masks: -2 ... +2
+    if case['mkind'] == 'uint8':
+        return r.integers(0, 2, ms).astype(np.uint8)        # 0/1 only: 1 - mask wraps for larger unsigned values (numpy semantics, the caller's choice of dtype)
     if case['mkind'] == 'real':
         return r.uniform(0, 1, ms)
     return r.uniform(0, 1, ms) * np.exp(2j * np.pi * r.uniform(0, 1, ms))
@@ -161,6 +167,7 @@ def check_mask(case, ctx):
     f = U.field(case['seed'], shape, case['kind']).astype(complex)
     m1 = _mask(case, 0)
     m2 = _mask(case, 1)
+    m1f, m2f = (m.astype(float) if m.dtype.kind in 'bui' else m for m in (m1, m2))     # the oracle side works in float / complex
     fpm_dx = lam * efl / (nx * dx * case['Q'])
     Q = (lam * efl / (ny * dx * fpm_dx), lam * efl / (nx * dx * fpm_dx))
     sh = (case['shift'][0] * fpm_dx, case['shift'][1] * fpm_dx)
@@ -180,22 +187,22 @@ def check_mask(case, ctx):
             wo = ctx.call(w.to_fpm_and_back, efl, mask, fpm_dx, method=method, shift=sh)
         ctx.require(wo.dx == dx and wo.space == 'pupil', 'to_fpm_and_back:metadata', 'returned wavefront dx/space changed')
         return np.asarray(wo.data)
-    scale = max(float(np.abs(f).sum()) * (dx * fpm_dx / (lam * efl)) ** 2 * m1.size * 2, 1e-300)
+    scale = max(float(np.abs(f).sum()) * (dx * fpm_dx / (lam * efl)) ** 2 * m1.size * 2 * max(1.0, float(np.abs(m1f).max())), 1e-300)
     tag = 'to_fpm_and_back:' + method
     T1 = T(m1)
     U.check_shape(T1, shape, tag)
     T2 = T(m2)
-    T12 = T(m1 + m2)
-    U.check_close(T12, T1 + T2, 0, tag + ':mask-additivity', 'T_(m1+m2) != T_m1 + T_m2', atol=TOL * scale)
+    T12 = T(m1f + m2f)
+    U.check_close(T12, T1 + T2, 0, tag + ':mask-additivity', 'T_(m1+m2) != T_m1 + T_m2 (masks of dtype %s)' % m1.dtype, atol=TOL * scale)
     ones = np.ones(m1.shape)
-    Tc = T(ones - m1)
+    Tc = T(ones - m1f)
     Tall = T(ones)
     U.check_close(T1 + Tc, Tall, 0, tag + ':babinet-sum', 'T_m + T_(1-m) != T_1', atol=TOL * scale)
     # whole chain vs the textbook DFTs (either sign of the shift, taken from the data)
     s_samp = (case['shift'][0], case['shift'][1])
     errs = {}
     for sgn in ((1, -1) if shifted else (1,)):
-        ref, _ = _chain(f, m1, Q, (sgn * s_samp[0], sgn * s_samp[1]))
+        ref, _ = _chain(f, m1f, Q, (sgn * s_samp[0], sgn * s_samp[1]))
         errs[sgn] = float(np.abs(T1 - ref).max()) if np.all(np.isfinite(T1)) else float('inf')
     best = min(errs, key=errs.get)
     ctx.require(errs[best] <= TOL * scale, tag + ':chain' + (':shifted' if shifted else '') + (':nonsquare' if ny != nx else ''),
@@ -205,7 +212,7 @@ def check_mask(case, ctx):
         w = P.Wavefront(f, lam, dx)
         bab = ctx.call(w.babinet, efl, None, m1, fpm_dx, method=method)
         U.check_close(np.asarray(bab.data), f - Tc, 0, 'babinet:' + method, 'babinet(fpm=m) != f - T_(1-m) f', atol=TOL * scale)
-        ref, _ = _chain(f, ones - m1, Q, (0, 0))
+        ref, _ = _chain(f, ones - m1f, Q, (0, 0))
         U.check_close(np.asarray(bab.data), f - ref, 0, 'babinet:' + method + ':vs-textbook', 'babinet(fpm=m) != f - textbook T_(1-m) f', atol=TOL * scale)
         lyot = U.rng_of(case['seed'], 7).uniform(0, 1, tuple(shape))
         bab2 = ctx.call(w.babinet, efl, lyot, m1, fpm_dx, method=method)
